@@ -1,7 +1,10 @@
 /-
 C03 (PBF part) — hostile PBF input: the block decoder returns objects or an error for EVERY byte
 string, every string-table access is bounds-checked, and what it hands to the builders satisfies
-the builders' guards — except for embedded NUL bytes (finding F13a).
+the builders' guards, so that every delivered object can be traversed in bounds
+(`pbf_decoded_objects_wf`, FULL since repair da64936 rejects string-table entries with an embedded
+NUL byte; before that repair the statement was refuted by finding F13a — the witness is kept below
+as regression documentation, section "F13a").
 
 Model: `Osmium.Pbf` (Model/Pbf.lean; C01/C02): `decodeFile noInflate r bs : Option (Header × List Object)`
 is a total function of the bytes — `none` = an exception derived from std::exception
@@ -51,11 +54,13 @@ theorem pbf_reads_in_bounds_partial (strs : List Bytes) (i : Int) :
 
 /-- Every string the decoder passes to a builder (user names, tag keys and values, roles) is an
     entry of the block's string table or the empty default, hence at most
-    `max_osm_string_length` = 1024 bytes long — for ANY byte string as input. -/
+    `max_osm_string_length` = 1024 bytes long and contains no NUL byte (`decode_stringtable`
+    rejects longer entries and, since repair da64936, entries with an embedded NUL) — for ANY byte
+    string as input. -/
 theorem pbf_strings_come_from_table (r : ROpts) (bs : Bytes) (h : Header) (objs : List Object)
     (hd : decodeFile noInflate r bs = some (h, objs)) :
-    ∀ o ∈ objs, ∀ s ∈ strsOf o, s.length ≤ maxOsmStringLength :=
-  decodeFile_strings_le r bs h objs hd
+    ∀ o ∈ objs, ∀ s ∈ strsOf o, s.length ≤ maxOsmStringLength ∧ noNul s = true :=
+  fun o ho s hs => ⟨decodeFile_strings_le r bs h objs hd o ho s hs, decodeFile_strings_nulfree r bs h objs hd o ho s hs⟩
 
 /-! ### decoded objects and the builders' guards -/
 
@@ -89,118 +94,160 @@ theorem tagsSub_extra (ts : List Tag) (h : ∀ s ∈ tagStrings ts, noNul s = tr
     rintro kv ⟨t, ht, rfl⟩
     exact ⟨h _ (mem_tagStrings_key ht), h _ (mem_tagStrings_value ht)⟩
 
-/-- THE FULL STATEMENT one would like: whatever the PBF decoder builds from any byte string can be
-    traversed in bounds. -/
+/-- guards of an object whose strings are short and NUL-free -/
+theorem guards_of_strings (fill : UInt8) (fixed : Bytes) (o : Object)
+    (hle : ∀ s ∈ strsOf o, s.length ≤ maxOsmStringLength) (hn : NulFree o)
+    (hnc : ∀ a b c d e f g i j k l, o ≠ .changeset a b c d e f g i j k l)
+    (hf : fixed.length = (toObjS fixed o).kind.sizeT - 8)
+    (hs : objSize fill (toObjS fixed o) < 2 ^ 32) :
+    Guards fill (toObjS fixed o) := by
+  have hmax : maxOsmStringLength = maxStr := rfl
+  cases o with
+  | node m l =>
+    refine ⟨hf, ?_, ?_, ?_, ?_, hs⟩
+    · exact tagsSub_lengths _ (fun s hs' => hmax ▸ hle s (List.mem_cons_of_mem _ hs'))
+    · have := hle m.user (List.mem_cons_self ..)
+      show m.user.length + 1 < 2 ^ 16
+      simp only [maxOsmStringLength] at this; omega
+    · exact hn m.user (List.mem_cons_self ..)
+    · exact tagsSub_extra _ (fun s hs' => hn s (List.mem_cons_of_mem _ hs'))
+  | way m ns =>
+    refine ⟨hf, ?_, ?_, ?_, ?_, hs⟩
+    · intro s hs'
+      simp only [toObjS, List.mem_append] at hs'
+      rcases hs' with hs' | hs'
+      · split at hs'
+        · cases hs'
+        · simp only [List.mem_singleton] at hs'; subst hs'; rfl
+      · exact tagsSub_lengths _ (fun s hs'' => hmax ▸ hle s (List.mem_cons_of_mem _ hs'')) s hs'
+    · have := hle m.user (List.mem_cons_self ..)
+      show m.user.length + 1 < 2 ^ 16
+      simp only [maxOsmStringLength] at this; omega
+    · exact hn m.user (List.mem_cons_self ..)
+    · intro s hs'
+      simp only [toObjS, List.mem_append] at hs'
+      rcases hs' with hs' | hs'
+      · split at hs'
+        · cases hs'
+        · simp only [List.mem_singleton] at hs'; subst hs'; rfl
+      · exact tagsSub_extra _ (fun s hs'' => hn s (List.mem_cons_of_mem _ hs'')) s hs'
+  | relation m ms =>
+    have hrole : ∀ x ∈ ms, x.role ∈ strsOf (.relation m ms) := by
+      intro x hx
+      simp only [strsOf, List.mem_cons, List.mem_append, List.mem_map]
+      exact Or.inr ⟨x, hx, rfl⟩
+    have htag : ∀ s ∈ tagStrings m.tags, s ∈ strsOf (.relation m ms) := by
+      intro s hs'
+      simp only [strsOf, List.mem_cons, List.mem_append]
+      exact Or.inl (Or.inr hs')
+    refine ⟨hf, ?_, ?_, ?_, ?_, hs⟩
+    · intro s hs'
+      simp only [toObjS, List.mem_append] at hs'
+      rcases hs' with hs' | hs'
+      · split at hs'
+        · cases hs'
+        · simp only [List.mem_singleton] at hs'; subst hs'
+          simp only [SubS.lengthsOk, List.all_eq_true, List.mem_map, decide_eq_true_eq]
+          rintro mm ⟨x, hx, rfl⟩
+          exact hmax ▸ hle _ (hrole x hx)
+      · exact tagsSub_lengths _ (fun s hs'' => hmax ▸ hle s (htag s hs'')) s hs'
+    · have := hle m.user (List.mem_cons_self ..)
+      show m.user.length + 1 < 2 ^ 16
+      simp only [maxOsmStringLength] at this; omega
+    · exact hn m.user (List.mem_cons_self ..)
+    · intro s hs'
+      simp only [toObjS, List.mem_append] at hs'
+      rcases hs' with hs' | hs'
+      · split at hs'
+        · cases hs'
+        · simp only [List.mem_singleton] at hs'; subst hs'
+          simp only [SubS.extraOk, List.all_eq_true, List.mem_map]
+          rintro mm ⟨x, hx, rfl⟩
+          exact hn _ (hrole x hx)
+      · exact tagsSub_extra _ (fun s hs'' => hn s (htag s hs'')) s hs'
+  | changeset a b c d e f g i j k l => exact absurd rfl (hnc a b c d e f g i j k l)
+
+/-- THE FULL STATEMENT: whatever the PBF decoder builds from any byte string can be traversed in
+    bounds.  (`fixed`: the integer fields written by `set_xxx`, of the size the constructor
+    reserves; the item is smaller than 4 GiB — the size field of an item is 32 bits; a block is at
+    most 32 MiB of input, but no bound on the decoded object is carried through the decoder here.) -/
 def PbfDecodedObjectsWF : Prop :=
   ∀ (r : ROpts) (bs : Bytes) (h : Header) (objs : List Object) (fill : UInt8) (fixed : Bytes),
     decodeFile noInflate r bs = some (h, objs) → ∀ o ∈ objs,
       fixed.length = (toObjS fixed o).kind.sizeT - 8 → objSize fill (toObjS fixed o) < 2 ^ 32 →
       Layout.WF (build fill (toObjS fixed o)) = true
 
-/-- `pbf_decoded_objects_wf`, except for the embedded-NUL case: an object decoded from ANY byte
-    string whose strings contain no NUL byte satisfies all builder `Guards`; hence
-    (`builders_produce_wf_partial`) the item the builders write for it is well-formed and its
-    complete traversal stays in bounds.  (`fixed`: the integer fields written by `set_xxx`, of the
-    size the constructor reserves; `hs`: the item is smaller than 4 GiB — a block is at most 32 MiB
-    of input, but that bound is not carried through the decoder here.) -/
-theorem pbf_decoded_objects_wf_partial (r : ROpts) (bs : Bytes) (h : Header) (objs : List Object)
+/-- `pbf_decoded_objects_wf` at full strength (since repair da64936): an object decoded from ANY
+    byte string satisfies all builder `Guards` — its strings are table entries, hence ≤ 1024 bytes
+    and NUL-free — so (`builders_produce_wf`) the item the builders write for it is well-formed and
+    its complete traversal (user, tags, node references, members and roles) stays in bounds and
+    delivers exactly what the decoder put in. -/
+theorem pbf_decoded_objects_guards (r : ROpts) (bs : Bytes) (h : Header) (objs : List Object)
     (fill : UInt8) (fixed : Bytes)
     (hd : decodeFile noInflate r bs = some (h, objs)) (o : Object) (ho : o ∈ objs)
-    (hn : NulFree o)
     (hf : fixed.length = (toObjS fixed o).kind.sizeT - 8)
     (hs : objSize fill (toObjS fixed o) < 2 ^ 32) :
-    Guards fill (toObjS fixed o) ∧ Layout.WF (build fill (toObjS fixed o)) = true := by
-  have hle := decodeFile_strings_le r bs h objs hd o ho
-  have hnc := decodeFile_no_changeset r bs h objs hd o ho
-  have hmax : maxOsmStringLength = maxStr := rfl
-  have g : Guards fill (toObjS fixed o) := by
-    cases o with
-    | node m l =>
-      refine ⟨hf, ?_, ?_, ?_, ?_, hs⟩
-      · exact tagsSub_lengths _ (fun s hs' => hmax ▸ hle s (List.mem_cons_of_mem _ hs'))
-      · have := hle m.user (List.mem_cons_self ..)
-        show m.user.length + 1 < 2 ^ 16
-        simp only [maxOsmStringLength] at this; omega
-      · exact hn m.user (List.mem_cons_self ..)
-      · exact tagsSub_extra _ (fun s hs' => hn s (List.mem_cons_of_mem _ hs'))
-    | way m ns =>
-      refine ⟨hf, ?_, ?_, ?_, ?_, hs⟩
-      · intro s hs'
-        simp only [toObjS, List.mem_append] at hs'
-        rcases hs' with hs' | hs'
-        · split at hs'
-          · cases hs'
-          · simp only [List.mem_singleton] at hs'; subst hs'; rfl
-        · exact tagsSub_lengths _ (fun s hs'' => hmax ▸ hle s (List.mem_cons_of_mem _ hs'')) s hs'
-      · have := hle m.user (List.mem_cons_self ..)
-        show m.user.length + 1 < 2 ^ 16
-        simp only [maxOsmStringLength] at this; omega
-      · exact hn m.user (List.mem_cons_self ..)
-      · intro s hs'
-        simp only [toObjS, List.mem_append] at hs'
-        rcases hs' with hs' | hs'
-        · split at hs'
-          · cases hs'
-          · simp only [List.mem_singleton] at hs'; subst hs'; rfl
-        · exact tagsSub_extra _ (fun s hs'' => hn s (List.mem_cons_of_mem _ hs'')) s hs'
-    | relation m ms =>
-      have hrole : ∀ x ∈ ms, x.role ∈ strsOf (.relation m ms) := by
-        intro x hx
-        simp only [strsOf, List.mem_cons, List.mem_append, List.mem_map]
-        exact Or.inr ⟨x, hx, rfl⟩
-      have htag : ∀ s ∈ tagStrings m.tags, s ∈ strsOf (.relation m ms) := by
-        intro s hs'
-        simp only [strsOf, List.mem_cons, List.mem_append]
-        exact Or.inl (Or.inr hs')
-      refine ⟨hf, ?_, ?_, ?_, ?_, hs⟩
-      · intro s hs'
-        simp only [toObjS, List.mem_append] at hs'
-        rcases hs' with hs' | hs'
-        · split at hs'
-          · cases hs'
-          · simp only [List.mem_singleton] at hs'; subst hs'
-            simp only [SubS.lengthsOk, List.all_eq_true, List.mem_map, decide_eq_true_eq]
-            rintro mm ⟨x, hx, rfl⟩
-            exact hmax ▸ hle _ (hrole x hx)
-        · exact tagsSub_lengths _ (fun s hs'' => hmax ▸ hle s (htag s hs'')) s hs'
-      · have := hle m.user (List.mem_cons_self ..)
-        show m.user.length + 1 < 2 ^ 16
-        simp only [maxOsmStringLength] at this; omega
-      · exact hn m.user (List.mem_cons_self ..)
-      · intro s hs'
-        simp only [toObjS, List.mem_append] at hs'
-        rcases hs' with hs' | hs'
-        · split at hs'
-          · cases hs'
-          · simp only [List.mem_singleton] at hs'; subst hs'
-            simp only [SubS.extraOk, List.all_eq_true, List.mem_map]
-            rintro mm ⟨x, hx, rfl⟩
-            exact hn _ (hrole x hx)
-        · exact tagsSub_extra _ (fun s hs'' => hn s (htag s hs'')) s hs'
-    | changeset a b c d e f g i j k l => exact absurd rfl (hnc a b c d e f g i j k l)
-  refine ⟨g, ?_⟩
+    Guards fill (toObjS fixed o) ∧ Layout.WF (build fill (toObjS fixed o)) = true ∧
+    ∃ fields, Layout.decodeAll (build fill (toObjS fixed o)) =
+      .ok [.mk (toObjS fixed o).kind.ty false fields [(toObjS fixed o).user] ((toObjS fixed o).subs.map subTree)] := by
+  have g : Guards fill (toObjS fixed o) :=
+    guards_of_strings fill fixed o (decodeFile_strings_le r bs h objs hd o ho)
+      (decodeFile_strings_nulfree r bs h objs hd o ho) (decodeFile_no_changeset r bs h objs hd o ho) hf hs
   obtain ⟨fields, hdec⟩ := decodeAll_build fill _ g
+  refine ⟨g, ?_, fields, hdec⟩
   unfold Layout.WF
   rw [hdec]
   simpa using build_length_mod fill _ g
 
-/-! ### F13a: the decoder does not establish `NulFree` -/
+theorem pbf_decoded_objects_wf : PbfDecodedObjectsWF :=
+  fun r bs h objs fill fixed hd o ho hf hs => (pbf_decoded_objects_guards r bs h objs fill fixed hd o ho hf hs).2.1
 
-/-- an 80-byte PBF file (corpus/C03/pbf_findings.ops, first line): header blob, one data blob with
-    the string table ["", "a\0b", "v"] and one node with keys = [1], vals = [2] -/
-def f13aFile : Bytes :=
+/-- non-vacuity: an 80-byte file with the string table ["", "axb", "v"] and one node with
+    keys = [1], vals = [2] decodes to that node … -/
+def okFile : Bytes :=
   [0x00, 0x00, 0x00, 0x0d, 0x0a, 0x09, 0x4f, 0x53, 0x4d, 0x48, 0x65, 0x61, 0x64, 0x65, 0x72, 0x18, 0x12,
    0x0a, 0x10, 0x22, 0x0e, 0x4f, 0x73, 0x6d, 0x53, 0x63, 0x68, 0x65, 0x6d, 0x61, 0x2d, 0x56, 0x30, 0x2e, 0x36,
    0x00, 0x00, 0x00, 0x0b, 0x0a, 0x07, 0x4f, 0x53, 0x4d, 0x44, 0x61, 0x74, 0x61, 0x18, 0x1e,
-   0x0a, 0x1c, 0x0a, 0x0a, 0x0a, 0x00, 0x0a, 0x03, 0x61, 0x00, 0x62, 0x0a, 0x01, 0x76,
+   0x0a, 0x1c, 0x0a, 0x0a, 0x0a, 0x00, 0x0a, 0x03, 0x61, 0x78, 0x62, 0x0a, 0x01, 0x76,
    0x12, 0x0e, 0x0a, 0x0c, 0x08, 0x02, 0x12, 0x01, 0x01, 0x1a, 0x01, 0x02, 0x40, 0x14, 0x48, 0x28]
 
-/-- the node the decoder delivers for it: tag key "a\0b" -/
+def okNode : Object := .node { id := 1, tags := [⟨[0x61, 0x78, 0x62], [0x76]⟩] } ⟨20, 10⟩
+
+example : decodeFile noInflate {} okFile = some ({}, [okNode]) := by decide +kernel
+
+/-- … and the premises on `fixed` and the size are satisfiable for it -/
+example : (ctorFixed .node).length = (toObjS (ctorFixed .node) okNode).kind.sizeT - 8 ∧
+    objSize 0 (toObjS (ctorFixed .node) okNode) < 2 ^ 32 := by decide
+
+/-! ### F13a (repaired by da64936): regression documentation
+
+Before the repair `decode_stringtable` checked only the length of an entry; the tag key "a\0b" went
+through to `TagListBuilder::add_tag`, `Tag::next()` (two `after_null`s) desynchronised and the tag
+walk left the tag list.  Kept: the input, the item the builders would write for the node the OLD
+decoder delivered and the proof that it cannot be traversed in bounds, the OLD string-table function
+accepting the table, the CURRENT one (and the whole current decoder) rejecting it.  The hostile
+tier replays `f13aFile` on the real Reader every run (corpus/C03/pbf_findings.ops, probe
+`pbf-embedded-nul-tag`): anything but pbf_error is reported as REGRESSION of fix da64936. -/
+
+/-- the 80-byte PBF file of the finding: `okFile` with the key "a\0b" -/
+def f13aFile : Bytes := okFile.set 59 0x00
+
+/-- the node the decoder delivered for it before the repair: tag key "a\0b" -/
 def f13aNode : Object :=
   .node { id := 1, tags := [⟨[0x61, 0x00, 0x62], [0x76]⟩] } ⟨20, 10⟩
 
-theorem f13a_decoder_accepts_embedded_nul :
-    decodeFile noInflate {} f13aFile = some ({}, [f13aNode]) := by
+/-- the StringTable message of `f13aFile`: entries "", "a\0b", "v" -/
+def f13aTable : Bytes := [0x0a, 0x00, 0x0a, 0x03, 0x61, 0x00, 0x62, 0x0a, 0x01, 0x76]
+
+/-- pre-fix: the string table with the embedded NUL was accepted -/
+theorem f13a_prefix_stringtable_accepted_nul :
+    Pre.decodeStringTable [] f13aTable = some [[], [0x61, 0x00, 0x62], [0x76]] := by decide +kernel
+
+/-- now: the table is rejected (pbf_error "string with embedded NUL byte in string table") … -/
+theorem f13a_stringtable_rejects_nul : decodeStringTable [] f13aTable = none := by decide +kernel
+
+/-- … and with it the whole file -/
+theorem f13a_decoder_rejects_embedded_nul : decodeFile noInflate {} f13aFile = none := by
   decide +kernel
 
 theorem f13a_not_nul_free : ¬ NulFree f13aNode := by
@@ -213,24 +260,25 @@ def isOob {α : Type} : Except Layout.DErr α → Bool
   | .error .oob => true
   | _ => false
 
-/-- … and the item the builders write for that node cannot be traversed in bounds -/
+/-- the item the builders write for that node cannot be traversed in bounds (why the repair was
+    needed: the builders themselves do not look for NUL bytes) -/
 theorem f13a_built_node_traverse_oob :
     isOob (Layout.decodeAll (build 0 (toObjS (ctorFixed .node) f13aNode))) = true ∧
     Layout.WF (build 0 (toObjS (ctorFixed .node) f13aNode)) = false := by
   decide +kernel
 
-/-- The full statement is FALSE for the code as it is. -/
-theorem pbf_decoded_objects_wf_refuted : ¬ PbfDecodedObjectsWF := by
+/-- Hence a decoder that delivers `f13aNode` (the pre-fix one did, for `f13aFile`) refutes the full
+    statement: the NUL check of the string table is NECESSARY for `pbf_decoded_objects_wf`. -/
+theorem f13a_prefix_witness_refutes (dec : ROpts → Bytes → Option (Header × List Object))
+    (hdec : dec {} f13aFile = some ({}, [f13aNode])) :
+    ¬ (∀ (r : ROpts) (bs : Bytes) (h : Header) (objs : List Object) (fill : UInt8) (fixed : Bytes),
+        dec r bs = some (h, objs) → ∀ o ∈ objs,
+        fixed.length = (toObjS fixed o).kind.sizeT - 8 → objSize fill (toObjS fixed o) < 2 ^ 32 →
+        Layout.WF (build fill (toObjS fixed o)) = true) := by
   intro h
-  have := h {} f13aFile {} [f13aNode] 0 (ctorFixed .node) f13a_decoder_accepts_embedded_nul f13aNode
+  have := h {} f13aFile {} [f13aNode] 0 (ctorFixed .node) hdec f13aNode
     (List.mem_singleton.mpr rfl) (by decide) (by decide)
   rw [f13a_built_node_traverse_oob.2] at this
   exact Bool.noConfusion this
-
-/-- non-vacuity of `pbf_decoded_objects_wf_partial`: the same file with the key "axb" -/
-example :
-    decodeFile noInflate {} (f13aFile.set 59 0x78) =
-      some ({}, [.node { id := 1, tags := [⟨[0x61, 0x78, 0x62], [0x76]⟩] } ⟨20, 10⟩]) := by
-  decide +kernel
 
 end Osmium.HostilePbf.C03
